@@ -188,13 +188,13 @@ def classByte : Cls → BitVec 8
 
 /-- the value `get_entries_num()` computes -/
 def entriesNumV (b : SecBuf) : BitVec 64 :=
-  if reloc_num_entsize_nz b.entSize then reloc_num_div b.size b.entSize else 0
+  if reloc_num_entsize_nz b.entSize then reloc_num_div b.size b.entSize else reloc_num_init
 
 /-- `get_entries_num()`; the division is checked -/
 def entriesNum (b : SecBuf) : M (BitVec 64) :=
   if reloc_num_entsize_nz b.entSize then
     if b.entSize = 0 then throw (.divZero "get_entries_num") else pure (reloc_num_div b.size b.entSize)
-  else pure 0
+  else pure reloc_num_init
 
 /-- `generic_get_entry_rel<T>` / `generic_get_entry_rela<T>` -/
 def getGeneric (ops : RecOps) (enc : Enc) (b : SecBuf) (index : BitVec 64) : M (SecBuf × Option Entry) :=
@@ -318,12 +318,14 @@ def swapLoop (enc : Enc) (first second : BitVec 64) : Nat → SecBuf → BitVec 
     let n ← entriesNum b
     if !(reloc_swap_loop_cond i n) then pure b else do
       let (b, cur) ← swapBody enc first second b i cur
-      swapLoop enc first second fuel b (i + 1) cur
+      swapLoop enc first second fuel b (reloc_swap_i_incr i) cur
 
 /-- `swap_symbols(first, second)`; the fuel suffices whenever the entry count is below 2^32
     (with more entries the 32-bit loop variable wraps and the C++ loop does not end) -/
 def swapSymbols (enc : Enc) (b : SecBuf) (first second : BitVec 64) : M SecBuf :=
-  swapLoop enc first second ((entriesNumV b).toNat + 1) b 0 { offset := 0, symbol := 0, type := 0, addend := 0 }
+  swapLoop enc first second ((entriesNumV b).toNat + 1) b reloc_swap_i_init
+    { offset := reloc_swap_init_offset, symbol := reloc_swap_init_symbol, type := reloc_swap_init_rtype,
+      addend := reloc_swap_init_addend }
 
 end Reloc
 end ElfioVerif
